@@ -586,214 +586,3 @@ Section Spec.
   Qed.
 End Spec.
 
-(* ---------- a toy instantiation: hypotheses are satisfiable, refutation witnesses ---------- *)
-Definition toy_digest (a : valgo) (t : tx) (i : nat) (code amount : bytes) (ht : N) : bytes :=
-  (match a with VLegacy => x00 | VSegwitV0 => x01 end) :: code ++ amount ++ [b8 ht].
-Definition toy_parse_pk (pub : bytes) : option bytes := Some pub.
-Definition toy_der_ok (_ : bytes) : bool := true.
-(* a "signature" by key k on message m is k ++ m *)
-Definition toy_verify (k m s : bytes) : bool := bytes_eqb s (k ++ m).
-Definition toy_signed (k m s : bytes) : Prop := s = k ++ m.
-Definition toy_hash160 (b : bytes) : bytes := b.
-
-Notation TVI := (vs_validate_input toy_digest toy_parse_pk toy_der_ok toy_verify toy_hash160).
-
-Example toy_ideal_sig : forall k m s, toy_verify k m s = true -> toy_signed k m s.
-Proof. intros k m s H. apply bytes_eqb_eq in H. exact H. Qed.
-
-Definition toy_sig (k : bytes) (d : bytes) (ht : N) : bytes := k ++ d ++ [b8 ht].
-
-Definition out_of (script value : bytes) : txout := mk_out [] value script [] [] [].
-Definition tx_of (ins : list txin) (outs : list txout) : tx := mk_tx 2 0 0 ins outs.
-Definition in_of (h : bytes) (idx : N) : txin := mk_in h idx 0xffffffff [] [] false [] None [] [].
-
-Definition kA : bytes := [x02].                                (* toy key; its toy HASH160 is itself *)
-Definition scrA : bytes := [x76; x01; x02].                    (* OP_DUP <02> : mentions kA *)
-Definition scrB : bytes := [x76; x01; x03].                    (* somebody else's script *)
-Definition kW : bytes := repeat x11 20.                         (* toy key whose HASH160 is a 20-byte program *)
-Definition spkW : bytes := [x00; x14] ++ kW.                    (* P2WPKH-shaped *)
-
-(* 1. v0: a previous transaction whose id is not the outpoint txid (it compares above it) *)
-Definition prevA : tx := tx_of [in_of [] 0] [out_of scrA [x01]].
-Definition pkt1 : vpacket :=
-  mk_vpacket (tx_of [in_of [] 0] [out_of [] [x01]])
-    [mk_vinput (Some prevA) None None None
-       [Some (mk_vsig (Some kA) (toy_sig kA (toy_digest VLegacy (tx_of [] []) 0 scrA [] 1) 1))] [] 0].
-
-Theorem valid_only_if_refuted_prev_tx_v0 :
-  TVI VsV0 pkt1 0 = VOk true /\
-  forall inp, nth_error (vp_ins pkt1) 0 = Some inp -> ~ prev_tx_matches VsV0 pkt1 0 inp.
-Proof.
-  split; [vm_compute; reflexivity|].
-  intros inp Hn H. cbn in Hn. injection Hn as <-.
-  destruct (H prevA eq_refl) as (h & idx & Ho & Ht). cbn in Ho. injection Ho as <- <-.
-  vm_compute in Ht. discriminate.
-Qed.
-
-(* 2. both utxo records present, amounts disagree: the signature covers the witness-utxo
-      amount, not the amount of the output the outpoint designates (v2; same code in v0) *)
-Definition prevW : tx := tx_of [in_of [] 0] [out_of spkW [x01; x05]].
-Definition pkt2 : vpacket :=
-  mk_vpacket (tx_of [in_of (txid prevW) 0] [out_of [] [x01]])
-    [mk_vinput (Some prevW) (Some (out_of spkW [x01; x09])) None None
-       [Some (mk_vsig (Some kW) (toy_sig kW (toy_digest VSegwitV0 (tx_of [] []) 0 (vs_p2pkh_code kW) [x01; x09] 1) 1))]
-       (txid prevW) 0].
-
-Ltac refute_sig_genuine :=
-  let H := fresh "H" in
-  intros (pub & sg & ck & last & rder & d & sat & asm & E1 & E2 & E3 & E4 & E5 & E6 & E7);
-  injection E1 as <- <-; vm_compute in E2; injection E2 as <-;
-  vm_compute in E3; injection E3 as <- <-;
-  vm_compute in E4; try discriminate E4; injection E4 as <- <-;
-  vm_compute in E6; discriminate E6.
-
-Theorem valid_only_if_refuted_amount :
-  TVI VsV2 pkt2 0 = VOk true /\
-  exists inp s, nth_error (vp_ins pkt2) 0 = Some inp /\ In s (vi_sigs inp) /\
-    prev_tx_matches VsV2 pkt2 0 inp /\
-    ~ sig_genuine toy_digest toy_parse_pk toy_der_ok toy_verify toy_hash160 VsV2 pkt2 0 inp s.
-Proof.
-  split; [vm_compute; reflexivity|].
-  eexists; eexists. split; [reflexivity|]. split; [left; reflexivity|]. split.
-  - intros prev Hp. cbn in Hp. injection Hp as <-. eexists; eexists. split; reflexivity.
-  - refute_sig_genuine.
-Qed.
-
-(* 3. a redeem script that the spent script does not commit to (the spent script is not even P2SH) *)
-Definition prevB : tx := tx_of [in_of [] 0] [out_of scrB [x01]].
-Definition pkt3 : vpacket :=
-  mk_vpacket (tx_of [in_of (txid prevB) 0] [out_of [] [x01]])
-    [mk_vinput (Some prevB) None (Some scrA) None
-       [Some (mk_vsig (Some kA) (toy_sig kA (toy_digest VLegacy (tx_of [] []) 0 scrA [] 1) 1))]
-       (txid prevB) 0].
-
-Theorem valid_only_if_refuted_redeem_script :
-  TVI VsV2 pkt3 0 = VOk true /\
-  exists inp s, nth_error (vp_ins pkt3) 0 = Some inp /\ In s (vi_sigs inp) /\
-    prev_tx_matches VsV2 pkt3 0 inp /\
-    ~ sig_genuine toy_digest toy_parse_pk toy_der_ok toy_verify toy_hash160 VsV2 pkt3 0 inp s.
-Proof.
-  split; [vm_compute; reflexivity|].
-  eexists; eexists. split; [reflexivity|]. split; [left; reflexivity|]. split.
-  - intros prev Hp. cbn in Hp. injection Hp as <-. eexists; eexists. split; reflexivity.
-  - refute_sig_genuine.
-Qed.
-
-(* 4. a witness script that is not the pre-image of the P2WSH program *)
-Definition wsA : bytes := [x51; x01; x02].                     (* OP_1 <02> *)
-Definition pkt4 : vpacket :=
-  mk_vpacket (tx_of [in_of (repeat x07 32) 0] [out_of [] [x01]])
-    [mk_vinput None (Some (out_of ([x00; x20] ++ repeat x00 32) [x01; x05])) None (Some wsA)
-       [Some (mk_vsig (Some kA) (toy_sig kA (toy_digest VSegwitV0 (tx_of [] []) 0 wsA [x01; x05] 1) 1))]
-       (repeat x07 32) 0].
-
-Theorem valid_only_if_refuted_witness_script :
-  TVI VsV0 pkt4 0 = VOk true /\ TVI VsV2 pkt4 0 = VOk true /\
-  exists inp s, nth_error (vp_ins pkt4) 0 = Some inp /\ In s (vi_sigs inp) /\
-    ~ sig_genuine toy_digest toy_parse_pk toy_der_ok toy_verify toy_hash160 VsV2 pkt4 0 inp s.
-Proof.
-  split; [vm_compute; reflexivity|]. split; [vm_compute; reflexivity|].
-  eexists; eexists. split; [reflexivity|]. split; [left; reflexivity|].
-  refute_sig_genuine.
-Qed.
-
-Theorem valid_only_if_refuted :
-  ~ valid_only_if_statement toy_digest toy_parse_pk toy_der_ok toy_verify toy_hash160.
-Proof.
-  intro H. destruct (H VsV0 pkt1 0 (proj1 valid_only_if_refuted_prev_tx_v0)) as (inp & Hn & _ & _ & Hp).
-  exact (proj2 valid_only_if_refuted_prev_tx_v0 inp Hn Hp).
-Qed.
-
-(* 5. the key test is a substring test on the hex disassembly: a match at an odd hex offset
-      is accepted although the key bytes occur nowhere in the script *)
-Theorem key_hex_match_not_bytewise :
-  exists script asm ck, vs_disasm script = Some asm /\
-    vs_is_infix (to_hex ck) asm = true /\ vs_is_infix ck script = false.
-Proof. exists [x02; x10; x20], (to_hex [x10; x20]), [x02]. vm_compute. repeat split. Qed.
-
-(* the hypotheses of valid_only_if_consistent are satisfiable: an honest P2WPKH input with
-   both utxo records, valid and consistent *)
-Definition pkt0 : vpacket :=
-  mk_vpacket (tx_of [in_of (txid prevW) 0] [out_of [] [x01]])
-    [mk_vinput (Some prevW) (Some (out_of spkW [x01; x05])) None None
-       [Some (mk_vsig (Some kW) (toy_sig kW (toy_digest VSegwitV0 (tx_of [] []) 0 (vs_p2pkh_code kW) [x01; x05] 1) 1))]
-       (txid prevW) 0].
-
-Example consistent_valid_packet :
-  TVI VsV2 pkt0 0 = VOk true /\
-  exists inp, nth_error (vp_ins pkt0) 0 = Some inp /\ consistent toy_hash160 VsV2 pkt0 0 inp.
-Proof.
-  split; [vm_compute; reflexivity|]. eexists. split; [reflexivity|].
-  split.
-  - intros prev Hp. cbn in Hp. injection Hp as <-. eexists; eexists. split; reflexivity.
-  - exists (out_of spkW [x01; x05]). split; [vm_compute; reflexivity|]. split.
-    + intros w _ Hw. cbn in Hw. injection Hw as <-. reflexivity.
-    + split; [vm_compute; reflexivity|]. split.
-      * intros _. left. vm_compute. discriminate.
-      * intros prog Hp. vm_compute in Hp. discriminate.
-Qed.
-
-(* the hypotheses of corruption_rejected are satisfiable (toy signatures are produced for one message) *)
-Example toy_signed_only : forall k m m' s, toy_signed k m s -> toy_signed k m' s -> m = m'.
-Proof. unfold toy_signed. intros k m m' s -> H. apply app_inv_head in H. exact H. Qed.
-
-(* ---------- panics on accepted packets ---------- *)
-(* the outpoint index is not within the supplied previous transaction *)
-Definition pkt5 : vpacket :=
-  mk_vpacket (tx_of [in_of (txid prevB) 1] [])
-    [mk_vinput (Some prevB) None None None [Some (mk_vsig (Some kA) [x01])] (txid prevB) 1].
-(* a P2WPKH output described by the previous transaction only *)
-Definition pkt6 : vpacket :=
-  mk_vpacket (tx_of [in_of (txid prevW) 0] [])
-    [mk_vinput (Some prevW) None None None [Some (mk_vsig (Some kW) [x01])] (txid prevW) 0].
-(* an empty script / the one-byte script OP_0 in the witness-utxo record *)
-Definition pkt7 (s : bytes) : vpacket :=
-  mk_vpacket (tx_of [in_of [] 0] [])
-    [mk_vinput None (Some (out_of s [x01])) None None [Some (mk_vsig (Some kA) [x01])] [] 0].
-
-Lemma toy_accepted_single t inp pub sg :
-  vi_sigs inp = [Some (mk_vsig (Some pub) sg)] -> sg <> [] -> length (t_ins t) = 1%nat ->
-  accepted toy_parse_pk (mk_vpacket t [inp]).
-Proof.
-  intros Hs Hsg Hl. split; [exact Hl|]. intros inp' [<-|[]] s Hin. rewrite Hs in Hin.
-  destruct Hin as [<-|[]]. exists pub, sg. repeat split; [discriminate | exact Hsg].
-Qed.
-
-Theorem no_panic_refuted :
-  (accepted toy_parse_pk pkt5 /\ TVI VsV0 pkt5 0 = VPanic VPPrevOutIndex /\ TVI VsV2 pkt5 0 = VPanic VPPrevOutIndex) /\
-  (accepted toy_parse_pk pkt6 /\ TVI VsV0 pkt6 0 = VPanic VPWitUtxoNil /\ TVI VsV2 pkt6 0 = VPanic VPWitUtxoNil) /\
-  (accepted toy_parse_pk (pkt7 []) /\ TVI VsV0 (pkt7 []) 0 = VPanic VPScriptEmpty /\ TVI VsV2 (pkt7 []) 0 = VPanic VPScriptEmpty) /\
-  (accepted toy_parse_pk (pkt7 [x00]) /\ TVI VsV0 (pkt7 [x00]) 0 = VPanic VPScriptShort /\ TVI VsV2 (pkt7 [x00]) 0 = VPanic VPScriptShort).
-Proof.
-  repeat split; try (vm_compute; reflexivity);
-    (eapply toy_accepted_single; [reflexivity | discriminate | reflexivity]).
-Qed.
-
-Theorem no_panic_statement_refuted :
-  ~ no_panic_statement toy_digest toy_parse_pk toy_der_ok toy_verify toy_hash160.
-Proof.
-  intro H. destruct no_panic_refuted as [[Ha [Hp _]] _].
-  apply (H VsV0 pkt5 0%nat Ha); [cbn; lia | exact Hp].
-Qed.
-
-(* outside the parsers' guarantees: an empty signature, a nil signature element, an index
-   past the inputs (hand-built packets only) *)
-Example panic_on_unparsed :
-  TVI VsV2 (mk_vpacket (tx_of [in_of [] 0] []) [mk_vinput None None None None [Some (mk_vsig (Some kA) [])] [] 0]) 0
-    = VPanic VPSigEmpty /\
-  TVI VsV0 (mk_vpacket (tx_of [in_of [] 0] []) [mk_vinput None None None None [None] [] 0]) 0 = VPanic VPSigNil /\
-  TVI VsV0 (mk_vpacket (tx_of [] []) []) 0 = VPanic VPInputIndex.
-Proof. vm_compute. repeat split. Qed.
-
-(* the guards of no_panic_partial are satisfiable *)
-Example no_panic_guards_hold :
-  accepted toy_parse_pk pkt0 /\ forall inp, nth_error (vp_ins pkt0) 0 = Some inp -> panic_guards VsV2 pkt0 0 inp.
-Proof.
-  split.
-  - eapply toy_accepted_single; [reflexivity | vm_compute; discriminate | reflexivity].
-  - intros inp Hn. cbn in Hn. injection Hn as <-. unfold panic_guards. cbn [vi_nonwit pkt0].
-    intros h idx Ho. cbn in Ho. injection Ho as <- <-.
-    exists (out_of spkW [x01; x05]). split; [vm_compute; reflexivity|]. split; [reflexivity|]. split.
-    + split; [vm_compute; discriminate|]. intros a Ha. vm_compute in Ha. discriminate.
-    + intros _. discriminate.
-Qed.
